@@ -282,3 +282,5 @@ def run(rep, program: Program, tier: str) -> None:
                 fd.rule, fd.prop = "R5", PROP
                 r.findings.append(fd)
     rep.extra.pop("members_outside_algebra", None)
+    # metric.sqrt (the public member the momentum draw reads) must be the analysed _construct_sqrt value (shared with C10-R9)
+    rep.isolate(c10.rule_lazy_members, rep, program, prop=PROP, rule="R6", only=("sqrt",))
